@@ -68,6 +68,11 @@ def _strategy(draw):
         if draw(st.integers(0, 3)) == 0:
             pair = [a, b] if draw(st.booleans()) else [b, a]
             nonbond.append(pair + [nbval(), nbval()])
+    if nonbond and draw(st.integers(0, 3)) == 0:
+        # a pair stated again further down (the user's own line after the force field's), in either order of the two
+        # types: as in grompp the later line is the one in force
+        a, b = draw(st.sampled_from(nonbond))[:2]
+        nonbond.append(([a, b] if draw(st.booleans()) else [b, a]) + [nbval(), nbval()])
     defines = {}
     if draw(st.booleans()):
         defines["gb_1"] = [_num(draw), _num(draw)]
